@@ -1,19 +1,39 @@
 // h_C12.cpp — harness for C12: every correction class of the library driven
-// through a sequence of steps, each with its own fault pattern, over
-// fault-injecting measurement / likelihood models that log the calls made.
+// through a history of steps on ONE object, each step with its own fault pattern,
+// payloads, sizes, layout and skip commands, over fault-injecting measurement /
+// likelihood models that log the calls made.
 //
 // Case: kind = kf | ukf_gen | ukf_add | sukf | gl | boot_gl | boot_custom |
-//              gpf_<inner>_<lik> (inner kf|ukfgen|ukfadd, lik gl|custom) | sis
+//              gpf_<inner>_<lik> (inner kf|ukfgen|ukfadd|sukf, lik gl|custom) | sis
 //   meta  n m comps steps sub risky skip iskip emptyR alias online reduced
-//         (skip_: driven correction / correction wrapped by GPF; failing noise-covariance call returns an empty matrix;
-//          correct(p, p); UKF update_weights_online; SUKF reduced noise covariance)
-//   word  pat  <6 bits per step: measure predictedMeasure innovation noisecov freeze likelihood;
-//               gpf_*: optionally 12 bits, the second six apply while the likelihood model is evaluated>
-//   mat   H R ; per step k: y<k> means<k> covs<k> weights<k> [states<k>]
-//   mat   omeans ocovs oweights [ostates]   previous content of the output object
+//         (skip_ set once on the driven correction / on the correction wrapped by GPF; legacy: a failing
+//          noise-covariance call returns an empty matrix; correct(p, p); UKF update_weights_online; SUKF reduced R)
+//         life   fresh | mc | mcu | vec | ma | mau   how the subject is obtained: as constructed; move-constructed from a
+//                fresh object / from one that has run step 0; element 0 of a std::vector that has grown; move-assigned
+//                (classes that have the operator) from a fresh / used object onto an object of another configuration
+//         intr   1: inside every callback of the subject's models an independent twin object of the same class runs a
+//                complete step (its own models, other data of the same shapes, pattern tpat<k>) and getLikelihood
+//         conc   1 (kind gl): the steps are also evaluated from one thread each at the same time
+//         mcirc  circular components at the end of the measurement description
+//   words, one token per step:
+//     pat   6 bits measure predictedMeasure innovation noisecov freeze likelihood;
+//           gpf_*: optionally 12 bits, the second six apply while the likelihood model is evaluated
+//     pay   5 letters: what the failing call M P I N L hands back NEXT TO its false flag
+//           M P I (bfl::Data): e empty Data, s a matrix of another shape, t a stale matrix (the last value the call
+//                 delivered, right shape), x a std::string;   N (MatrixXd): R the covariance itself, e empty,
+//                 s another shape, t another SPD matrix of the right shape;   L (VectorXd): z Zero(1), e empty,
+//                 s another length, t the right length
+//     skc / isk  skip command issued before the step on the driven / wrapped correction: - none, 1 skip(true), 0 skip(false)
+//     lay   <linear>.<circular>.<0|1 quaternion> layout of the step's predicted belief;  flay: of a new output object
+//     tpat  the twin's pattern (intr=1)
+//     scmd  (sis) c1 / c0: ParticleFilter::skip("correction", on/off) before the step; r: reset() during the step
+//   mat   H R (or per step H<k> R<k>); per step k: y<k> means<k> covs<k> weights<k> [states<k>]
+//   mat   omeans ocovs oweights [ostates] (layout meta olay)  previous content of the output object;
+//         fmeans<k> ... : a NEW output object handed to step k
 // Output per step k: ident<k> (whole object bit-identical to the predicted one)
 // and its parts, the raw matrices, log<k> (calls made by correct), lik_valid<k>,
-// lik<k>, liklog<k> (calls made by getLikelihood), pred_unchanged<k>.
+// lik<k>, liklog<k> (calls made by getLikelihood), pred_unchanged<k>; threw_correct<k> / threw_lik<k> with the
+// exception text when correct() / getLikelihood() let an exception escape (the record then ends: aborted_at).
 // Cases marked risky=1 run in a forked child so that a redirected Eigen
 // assertion / sanitizer abort ends the case, not the run; the parent then
 // closes the record with crashed / crash_* fields.
@@ -37,6 +57,7 @@
 #include <cstring>
 #include <fcntl.h>
 #include <memory>
+#include <type_traits>
 #include <sys/wait.h>
 #include <unistd.h>
 
@@ -45,54 +66,103 @@ using namespace Eigen;
 
 enum { S_M = 0, S_P, S_I, S_N, S_F, S_L };
 
+struct Layout {
+    long lin = 0, circ = 0; bool quat = false;
+    long dim() const { return lin + (quat ? 4 : 1) * circ; }
+    long dim_cov() const { return lin + (quat ? 3 : 1) * circ; }
+};
+static Layout parse_layout(const std::string& tok, long n_default) {
+    Layout l; l.lin = n_default;
+    if (tok.empty() || tok == "-") return l;
+    long a = 0, b = 0, q = 0;
+    if (std::sscanf(tok.c_str(), "%ld.%ld.%ld", &a, &b, &q) == 3) { l.lin = a; l.circ = b; l.quat = q != 0; }
+    return l;
+}
+
 struct Shared {
     std::string bits = "000000";    // pattern of the step
     std::string bits2 = "000000";   // pattern while a PhaseLik-wrapped likelihood model is being evaluated (GPF's second phase)
+    std::string pay = "eeeRz";      // payload classes of the step's failing calls
     int phase = 0;
-    bool empty_on_fail = false;     // a failing getNoiseCovarianceMatrix returns an empty matrix next to its flag
-    MatrixXd y;
+    bool intrudes = false;          // the subject's models give the intruder a chance in every callback
+    MatrixXd y, H, R;               // the sensor of this step
+    Layout in;                      // layout of the belief handed to the correction (input description)
+    long mcirc = 0;
+    MatrixXd last[3];               // last values delivered by measure / predictedMeasure / innovation
     std::vector<std::string> log;
     bool fails(int s) const { const std::string& b = phase ? bits2 : bits; return s < (int)b.size() && b[s] == '1'; }
+    char cls(int s) const { int i = s == S_L ? 4 : s; return i < (int)pay.size() ? pay[i] : 'e'; }
 };
+
+// what a failing call of measure / predictedMeasure / innovation hands back next to its false flag
+static Data data_payload(char cls, const MatrixXd& would, const MatrixXd& last) {
+    switch (cls) {
+    case 's': return Data(MatrixXd(MatrixXd::Constant(would.rows() + 1, would.cols() + 2, 7.5)));
+    case 't': return Data(MatrixXd(last.size() > 0 ? last : would));
+    case 'x': return Data(std::string("unavailable"));
+    default:  return Data();
+    }
+}
 
 // fault-injecting linear sensor; usable as Linear-, Additive- and plain MeasurementModel
 class FaultyModel : public LinearMeasurementModel {
 public:
-    FaultyModel(std::shared_ptr<Shared> sh, const MatrixXd& H, const MatrixXd& R, bool noise_in_input, long reduced_to = 0)
-        : sh_(sh), H_(H), R_(R), noise_in_input_(noise_in_input) { if (reduced_to > 0) Rret_ = R.topLeftCorner(reduced_to, reduced_to); else Rret_ = R; }
-    bool freeze(const Data&) override { sh_->log.push_back("F"); return !sh_->fails(S_F); }
+    FaultyModel(std::shared_ptr<Shared> sh, bool noise_in_input, long reduced_to = 0)
+        : sh_(sh), noise_in_input_(noise_in_input), reduced_to_(reduced_to) { }
+    void hook() const { if (sh_->intrudes) vf::intrude(); }
+    bool freeze(const Data&) override { sh_->log.push_back("F"); hook(); return !sh_->fails(S_F); }
     std::pair<bool, Data> measure(const Data&) const override {
-        sh_->log.push_back("M");
-        if (sh_->fails(S_M)) return std::make_pair(false, Data());
+        sh_->log.push_back("M"); hook();
+        if (sh_->fails(S_M)) return std::make_pair(false, data_payload(sh_->cls(S_M), sh_->y, sh_->last[S_M]));
+        sh_->last[S_M] = sh_->y;
         return std::make_pair(true, Data(sh_->y));
     }
     std::pair<bool, Data> predictedMeasure(const Ref<const MatrixXd>& x) const override {
-        sh_->log.push_back("P");
-        if (sh_->fails(S_P)) return std::make_pair(false, Data());
+        sh_->log.push_back("P"); hook();
+        const MatrixXd& H = sh_->H;
         MatrixXd pr;
-        if (x.rows() == H_.cols() + H_.rows()) pr = H_ * x.topRows(H_.cols()) + x.bottomRows(H_.rows());   // state + noise rows
-        else pr = H_ * x;
+        if (x.rows() == H.cols() + H.rows()) pr = H * x.topRows(H.cols()) + x.bottomRows(H.rows());   // state + noise rows
+        else if (x.rows() == H.cols()) pr = H * x;
+        else pr = MatrixXd::Zero(H.rows(), x.cols());
+        if (sh_->fails(S_P)) return std::make_pair(false, data_payload(sh_->cls(S_P), pr, sh_->last[S_P]));
+        sh_->last[S_P] = pr;
         return std::make_pair(true, Data(std::move(pr)));
     }
     std::pair<bool, Data> innovation(const Data& pred, const Data& meas) const override {
-        sh_->log.push_back("I");
-        if (sh_->fails(S_I)) return std::make_pair(false, Data());
+        sh_->log.push_back("I"); hook();
         MatrixXd inn = -(any::any_cast<MatrixXd>(pred).colwise() - any::any_cast<MatrixXd>(meas).col(0));
+        if (sh_->fails(S_I)) return std::make_pair(false, data_payload(sh_->cls(S_I), inn, sh_->last[S_I]));
+        sh_->last[S_I] = inn;
         return std::make_pair(true, Data(std::move(inn)));
     }
     std::pair<bool, MatrixXd> getNoiseCovarianceMatrix() const override {
-        sh_->log.push_back("N");
-        if (sh_->fails(S_N)) return std::make_pair(false, sh_->empty_on_fail ? MatrixXd() : Rret_);
-        return std::make_pair(true, Rret_);
+        sh_->log.push_back("N"); hook();
+        MatrixXd Rret = reduced_to_ > 0 ? MatrixXd(sh_->R.topLeftCorner(reduced_to_, reduced_to_)) : sh_->R;
+        if (sh_->fails(S_N)) {
+            switch (sh_->cls(S_N)) {
+            case 'e': return std::make_pair(false, MatrixXd());
+            case 's': return std::make_pair(false, MatrixXd(MatrixXd::Identity(Rret.rows() + 1, Rret.cols() + 1)));
+            case 't': return std::make_pair(false, MatrixXd(1.5 * Rret + MatrixXd::Identity(Rret.rows(), Rret.cols())));
+            default:  return std::make_pair(false, Rret);
+            }
+        }
+        return std::make_pair(true, Rret);
     }
     // getters: logged too (they cannot signal unavailability)
-    MatrixXd getMeasurementMatrix() const override { sh_->log.push_back("H"); return H_; }
-    VectorDescription getInputDescription() const override { sh_->log.push_back("Di"); return VectorDescription(H_.cols(), 0, noise_in_input_ ? H_.rows() : 0); }
-    VectorDescription getMeasurementDescription() const override { sh_->log.push_back("D"); return VectorDescription(H_.rows()); }
+    MatrixXd getMeasurementMatrix() const override { sh_->log.push_back("H"); hook(); return sh_->H; }
+    VectorDescription getInputDescription() const override {
+        sh_->log.push_back("Di"); hook();
+        return VectorDescription(sh_->in.lin, sh_->in.circ, noise_in_input_ ? sh_->H.rows() : 0,
+                                 sh_->in.quat ? VectorDescription::CircularType::Quaternion : VectorDescription::CircularType::Euler);
+    }
+    VectorDescription getMeasurementDescription() const override {
+        sh_->log.push_back("D"); hook();
+        return VectorDescription(sh_->H.rows() - sh_->mcirc, sh_->mcirc);
+    }
 private:
     std::shared_ptr<Shared> sh_;
-    MatrixXd H_, R_, Rret_;
     bool noise_in_input_;
+    long reduced_to_;
 };
 
 // user-supplied likelihood model with its own validity flag; does not consult the measurement model
@@ -101,7 +171,15 @@ public:
     explicit FaultyLik(std::shared_ptr<Shared> sh) : sh_(sh) {}
     std::pair<bool, VectorXd> likelihood(const MeasurementModel&, const Ref<const MatrixXd>& states) override {
         sh_->log.push_back("L");
-        if (sh_->fails(S_L)) return std::make_pair(false, VectorXd::Zero(1));
+        if (sh_->intrudes) vf::intrude();
+        if (sh_->fails(S_L)) {
+            switch (sh_->cls(S_L)) {
+            case 'e': return std::make_pair(false, VectorXd());
+            case 's': return std::make_pair(false, VectorXd(VectorXd::Constant(states.cols() + 1, 0.5)));
+            case 't': return std::make_pair(false, VectorXd(VectorXd::Constant(states.cols(), 0.75)));
+            default:  return std::make_pair(false, VectorXd(VectorXd::Zero(1)));
+            }
+        }
         return std::make_pair(true, value(states, sh_->y));
     }
     static VectorXd value(const Ref<const MatrixXd>& states, const MatrixXd& y) {
@@ -119,9 +197,8 @@ public:
     PhaseLik(std::shared_ptr<Shared> sh, std::unique_ptr<LikelihoodModel> inner) : sh_(sh), inner_(std::move(inner)) {}
     std::pair<bool, VectorXd> likelihood(const MeasurementModel& mm, const Ref<const MatrixXd>& states) override {
         sh_->phase = 1;
-        auto r = inner_->likelihood(mm, states);
-        sh_->phase = 0;
-        return r;
+        struct Back { Shared& s; ~Back() { s.phase = 0; } } back{*sh_};
+        return inner_->likelihood(mm, states);
     }
 private:
     std::shared_ptr<Shared> sh_;
@@ -144,19 +221,22 @@ private:
 static void fill(GaussianMixture& g, const MatrixXd& means, const MatrixXd& covs, const MatrixXd& w) {
     g.mean() = means; g.covariance() = covs; g.weight() = w.col(0);
 }
-static GaussianMixture make_gm(const vf::Case& c, const std::string& sfx, const std::string& pfx = "") {
+static GaussianMixture make_gm(const vf::Case& c, const std::string& sfx, const std::string& pfx, const Layout& l) {
     const MatrixXd& means = c.mat(pfx + "means" + sfx);
-    GaussianMixture g(means.cols(), means.rows());
+    GaussianMixture g(means.cols(), l.lin, l.circ, l.quat);
     fill(g, means, c.mat(pfx + "covs" + sfx), c.mat(pfx + "weights" + sfx));
     return g;
 }
-static ParticleSet make_ps(const vf::Case& c, const std::string& sfx, const std::string& pfx = "") {
+static ParticleSet make_ps(const vf::Case& c, const std::string& sfx, const std::string& pfx, const Layout& l) {
     const MatrixXd& means = c.mat(pfx + "means" + sfx);
-    ParticleSet p(means.cols(), means.rows());
+    ParticleSet p(means.cols(), l.lin, l.circ, l.quat);
     fill(p, means, c.mat(pfx + "covs" + sfx), c.mat(pfx + "weights" + sfx));
     p.state() = c.mat(pfx + "states" + sfx);
     return p;
 }
+static GaussianMixture make_belief(const vf::Case& c, const std::string& sfx, const std::string& pfx, const Layout& l, const GaussianMixture*) { return make_gm(c, sfx, pfx, l); }
+static ParticleSet make_belief(const vf::Case& c, const std::string& sfx, const std::string& pfx, const Layout& l, const ParticleSet*) { return make_ps(c, sfx, pfx, l); }
+
 static bool same_shape(const GaussianMixture& a, const GaussianMixture& b) {
     return a.components == b.components && a.use_quaternion == b.use_quaternion && a.dim_circular_component == b.dim_circular_component
         && a.dim == b.dim && a.dim_linear == b.dim_linear && a.dim_circular == b.dim_circular && a.dim_noise == b.dim_noise
@@ -165,9 +245,13 @@ static bool same_shape(const GaussianMixture& a, const GaussianMixture& b) {
 static void out_log(const std::string& name, const std::vector<std::string>& l) {
     if (l.empty()) vf::out_word(name, {"-"}); else vf::out_word(name, l);
 }
+static std::string sanitize(std::string s) {
+    for (auto& ch : s) if (ch == ' ' || ch == '\t' || ch == '\n' || ch == '\r') ch = '_';
+    return s.empty() ? "-" : s;
+}
 // identity is judged against the copy of the predicted belief taken before the call (with correct(p, p) the
 // predicted object itself is the output)
-static void emit_gm(const std::string& k, const GaussianMixture& pred, const GaussianMixture& pred_copy, const GaussianMixture& out) {
+static bool emit_gm(const std::string& k, const GaussianMixture& pred, const GaussianMixture& pred_copy, const GaussianMixture& out) {
     bool im = vf::bit_equal(out.mean(), pred_copy.mean()), ic = vf::bit_equal(out.covariance(), pred_copy.covariance()),
          iw = vf::bit_equal(out.weight(), pred_copy.weight()), is = same_shape(out, pred_copy);
     vf::out_int("ident_mean" + k, im); vf::out_int("ident_cov" + k, ic); vf::out_int("ident_w" + k, iw); vf::out_int("ident_shape" + k, is);
@@ -176,13 +260,18 @@ static void emit_gm(const std::string& k, const GaussianMixture& pred, const Gau
     vf::out_mat("mean" + k, out.mean()); vf::out_mat("cov" + k, out.covariance()); vf::out_mat("w" + k, out.weight());
     vf::out_int("pred_unchanged" + k, vf::bit_equal(pred.mean(), pred_copy.mean()) && vf::bit_equal(pred.covariance(), pred_copy.covariance())
                                           && vf::bit_equal(pred.weight(), pred_copy.weight()) && same_shape(pred, pred_copy));
+    return im && ic && iw && is;
 }
-static void emit_ps(const std::string& k, const ParticleSet& pred, const ParticleSet& pred_copy, const ParticleSet& out) {
-    emit_gm(k, pred, pred_copy, out);
+static bool emit_belief(const std::string& k, const GaussianMixture& pred, const GaussianMixture& pred_copy, const GaussianMixture& out) {
+    return emit_gm(k, pred, pred_copy, out);
+}
+static bool emit_belief(const std::string& k, const ParticleSet& pred, const ParticleSet& pred_copy, const ParticleSet& out) {
+    bool g = emit_gm(k, pred, pred_copy, out);
     bool ist = vf::bit_equal(out.state(), pred_copy.state());
     vf::out_int("ident_state" + k, ist);
     vf::out_mat("state" + k, out.state());
     vf::out_int("pred_state_unchanged" + k, vf::bit_equal(pred.state(), pred_copy.state()));
+    return g && ist;
 }
 static void emit_lik(const std::string& k, bool ok, const VectorXd& lik, const std::vector<std::string>& log) {
     vf::out_int("lik_valid" + k, ok ? 1 : 0);
@@ -191,49 +280,222 @@ static void emit_lik(const std::string& k, bool ok, const VectorXd& lik, const s
     std::cout << std::flush;
 }
 
+static const MatrixXd& step_mat(const vf::Case& c, const std::string& name, long k) {
+    const std::string nk = name + std::to_string(k);
+    return c.has_mat(nk) ? c.mat(nk) : c.mat(name);
+}
+static std::string tok(const vf::Case& c, const std::string& word, long k, const std::string& dflt) {
+    const std::vector<std::string>& w = c.word(word);
+    return k < (long)w.size() ? w[k] : dflt;
+}
+static Layout step_layout(const vf::Case& c, long k) { return parse_layout(tok(c, "lay", k, "-"), c.mi("n")); }
+
 static void set_step(const vf::Case& c, Shared& sh, long k) {
-    const std::string& tok = c.word("pat")[k];
-    sh.bits = tok.substr(0, 6);
-    sh.bits2 = tok.size() >= 12 ? tok.substr(6, 6) : sh.bits;
+    const std::string t = c.word("pat")[k];
+    sh.bits = t.substr(0, 6);
+    sh.bits2 = t.size() >= 12 ? t.substr(6, 6) : sh.bits;
+    sh.pay = tok(c, "pay", k, c.mi("emptyR") == 1 ? "eeeez" : "eeeRz");
     sh.phase = 0;
     sh.y = c.mat("y" + std::to_string(k));
+    sh.H = step_mat(c, "H", k);
+    sh.R = step_mat(c, "R", k);
+    sh.in = step_layout(c, k);
+    sh.mcirc = c.mi("mcirc", 0);
     sh.log.clear();
 }
 
-// a GaussianCorrection driven through the steps; the output object is reused (alias: the predicted object is the output)
-static void run_gauss(const vf::Case& c, GaussianCorrection& corr, Shared& sh, const char* l_correct, const char* l_lik) {
-    GaussianMixture out = make_gm(c, "", "o");
-    const long steps = c.mi("steps");
+// ------------------------------------------------------------------ construction of subjects and twins
+struct Cfg { long n, sub; bool online, reduced; double alpha = 1.0, beta = 2.0, kappa = 0.0; std::string kind; };
+
+static std::unique_ptr<KFCorrection> make_kf(std::shared_ptr<Shared> sh, const Cfg&) {
+    return std::unique_ptr<KFCorrection>(new KFCorrection(std::unique_ptr<LinearMeasurementModel>(new FaultyModel(sh, false))));
+}
+static std::unique_ptr<UKFCorrection> make_ukf_gen(std::shared_ptr<Shared> sh, const Cfg& g) {
+    std::unique_ptr<UKFCorrection> u(new UKFCorrection(std::unique_ptr<MeasurementModel>(new FaultyModel(sh, true)), g.alpha, g.beta, g.kappa, g.online));
+    sh->log.clear();
+    return u;
+}
+static std::unique_ptr<UKFCorrection> make_ukf_add(std::shared_ptr<Shared> sh, const Cfg& g) {
+    std::unique_ptr<UKFCorrection> u(new UKFCorrection(std::unique_ptr<AdditiveMeasurementModel>(new FaultyModel(sh, false)), g.alpha, g.beta, g.kappa));
+    sh->log.clear();
+    return u;
+}
+static std::unique_ptr<SUKFCorrection> make_sukf(std::shared_ptr<Shared> sh, const Cfg& g) {
+    std::unique_ptr<SUKFCorrection> u(new SUKFCorrection(std::unique_ptr<AdditiveMeasurementModel>(new FaultyModel(sh, false, g.reduced ? g.sub : 0)),
+                                                          g.alpha, g.beta, g.kappa, g.sub, g.reduced));
+    sh->log.clear();
+    return u;
+}
+static std::unique_ptr<BootstrapCorrection> make_boot(std::shared_ptr<Shared> sh, const Cfg& g) {
+    std::unique_ptr<LikelihoodModel> lm;
+    if (g.kind == "boot_gl") lm.reset(new GaussianLikelihood()); else lm.reset(new FaultyLik(sh));
+    return std::unique_ptr<BootstrapCorrection>(new BootstrapCorrection(std::unique_ptr<MeasurementModel>(new FaultyModel(sh, false)), std::move(lm)));
+}
+// GPFCorrection offers no access to the wrapped correction: skip commands for it go through this side door
+struct InnerSkip { GaussianCorrection* gc = nullptr; };
+
+// ------------------------------------------------------------------ the step loop
+// belief of the same shape as pred with other content
+static void other_content(GaussianMixture& t) {
+    for (long j = 0; j < t.mean().cols(); j++) for (long i = 0; i < t.mean().rows(); i++) t.mean()(i, j) = 0.1 * (i + 1) - 0.05 * j;
+    if (t.use_quaternion)
+        for (long j = 0; j < t.mean().cols(); j++)
+            for (long q = 0; q < (long)t.dim_circular; q++) { t.mean().col(j).segment(t.dim_linear + 4 * q, 4) << 1.0, 0.0, 0.0, 0.0; }
+    const long d = t.dim_covariance;
+    for (long j = 0; j < (long)t.components; j++) t.covariance(j) = 2.0 * MatrixXd::Identity(d, d) + MatrixXd::Constant(d, d, 0.1);
+    t.weight().setConstant(-std::log(static_cast<double>(t.components)));
+}
+static GaussianMixture twin_belief(const GaussianMixture& pred) { GaussianMixture t(pred); other_content(t); return t; }
+static ParticleSet twin_belief(const ParticleSet& pred) {
+    ParticleSet t(pred); other_content(t);
+    for (long j = 0; j < t.state().cols(); j++) for (long i = 0; i < t.state().rows(); i++) t.state()(i, j) = 0.2 * (i + 1) + 0.03 * j;
+    if (t.use_quaternion) t.state() = t.mean();
+    return t;
+}
+
+template <class Corr, class Belief>
+struct Runner {
+    const vf::Case& c;
+    std::shared_ptr<Shared> sh;
+    const char* l_correct; const char* l_lik;
+    int gpf_custom;                 // -1: not a GPF; 0 / 1: mirror of the known finding with GaussianLikelihood / custom likelihood
+    InnerSkip inner;
+    Belief out;
+    bool aborted = false;
+    // twin (callback re-entrancy)
+    std::shared_ptr<Shared> tsh;
+    std::unique_ptr<Corr> twin;
+    long twin_calls = 0;
+
+    Runner(const vf::Case& cc, std::shared_ptr<Shared> s, const char* lc, const char* ll, int gc)
+        : c(cc), sh(s), l_correct(lc), l_lik(ll), gpf_custom(gc),
+          out(make_belief(cc, "", "o", parse_layout(cc.m("olay", "-"), cc.mi("n")), static_cast<const Belief*>(nullptr))) { }
+
+    void run(Corr& corr, long from, long to);
+};
+
+static void emit_gpf_mirror(const std::string& ks, const ParticleSet& pred, const ParticleSet& out,
+                            const MatrixXd& H, const MatrixXd& R, const MatrixXd& y, bool custom);
+static void maybe_mirror(int, const std::string&, const GaussianMixture&, const GaussianMixture&, const Shared&) { }
+static void maybe_mirror(int gpf_custom, const std::string& ks, const ParticleSet& pred_copy, const ParticleSet& o, const Shared& sh) {
+    if (gpf_custom >= 0) emit_gpf_mirror(ks, pred_copy, o, sh.H, sh.R, sh.y, gpf_custom == 1);
+}
+
+template <class Corr, class Belief>
+void Runner<Corr, Belief>::run(Corr& corr, long from, long to) {
     const bool alias = c.mi("alias") == 1;
-    if (c.mi("skip") == 1) corr.skip(true);
-    for (long k = 0; k < steps; k++) {
+    const bool intr = c.mi("intr", 0) == 1;
+    for (long k = from; k < to && !aborted; k++) {
         const std::string ks = std::to_string(k);
-        set_step(c, sh, k);
-        GaussianMixture pred = make_gm(c, ks), pred_copy(pred);
-        GaussianMixture& o = alias ? pred : out;
+        set_step(c, *sh, k);
+        // commands that stay in force
+        const std::string skc = tok(c, "skc", k, "-"), isk = tok(c, "isk", k, "-");
+        if (skc == "1") corr.skip(true); else if (skc == "0") corr.skip(false);
+        if (inner.gc) { if (isk == "1") inner.gc->skip(true); else if (isk == "0") inner.gc->skip(false); }
+        const Layout lay = step_layout(c, k);
+        Belief pred = make_belief(c, ks, "", lay, static_cast<const Belief*>(nullptr)), pred_copy(pred);
+        if (c.has_mat("fmeans" + ks)) out = make_belief(c, ks, "f", parse_layout(tok(c, "flay", k, "-"), c.mi("n")), static_cast<const Belief*>(nullptr));
+        Belief& o = alias ? pred : out;
+        // the twin: an independent object of the same class with its own models, run inside every callback of the subject's
+        Belief tpred = twin_belief(pred), tout(tpred);
+        if (intr && twin) {
+            *tsh = *sh; tsh->intrudes = false; tsh->log.clear();
+            tsh->bits = tok(c, "tpat", k, "000000"); tsh->bits2 = tsh->bits; tsh->pay = "eeeRz";
+            tsh->y = MatrixXd::Constant(sh->y.rows(), sh->y.cols(), 0.3);
+            for (auto& l : tsh->last) l.resize(0, 0);
+            Corr* tw = twin.get(); Belief* tp = &tpred; Belief* to2 = &tout; long* calls = &twin_calls;
+            vf::set_intruder([tw, tp, to2, calls]() { tw->correct(*tp, *to2); tw->getLikelihood(); (*calls)++; });
+            sh->intrudes = true;
+        }
         vf::out_int("step_begin" + ks, 1); std::cout << std::flush;
-        { vf::Entry e(l_correct); corr.correct(pred, o); }
-        emit_gm(ks, pred, pred_copy, o);
-        vf::out_int("ident" + ks, vf::bit_equal(o.mean(), pred_copy.mean()) && vf::bit_equal(o.covariance(), pred_copy.covariance())
-                                       && vf::bit_equal(o.weight(), pred_copy.weight()) && same_shape(o, pred_copy));
-        out_log("log" + ks, sh.log);
-        sh.log.clear();
+        bool threw = false; std::string what;
+        try { vf::Entry e(l_correct); corr.correct(pred, o); }
+        catch (const std::exception& e) { threw = true; what = e.what(); }
+        catch (...) { threw = true; what = "not-a-std-exception"; }
+        sh->phase = 0;
+        vf::out_int("threw_correct" + ks, threw);
+        if (threw) vf::out_str("threw_what" + ks, sanitize(what));
+        bool id = emit_belief(ks, pred, pred_copy, o);
+        vf::out_int("ident" + ks, id);
+        out_log("log" + ks, sh->log);
+        if (!threw && k == 0 && !alias) maybe_mirror(gpf_custom, ks, pred_copy, o, *sh);
+        sh->log.clear();
+        if (threw) { aborted = true; vf::out_int("aborted_at", k); sh->intrudes = false; vf::clear_intruder(); break; }
         vf::out_int("lik_begin" + ks, 1); std::cout << std::flush;
-        bool ok; VectorXd lik;
-        { vf::Entry e(l_lik); std::tie(ok, lik) = corr.getLikelihood(); }
-        emit_lik(ks, ok, lik, sh.log);
+        bool ok = false; VectorXd lik;
+        try { vf::Entry e(l_lik); std::tie(ok, lik) = corr.getLikelihood(); }
+        catch (const std::exception& e) { threw = true; what = e.what(); }
+        catch (...) { threw = true; what = "not-a-std-exception"; }
+        vf::out_int("threw_lik" + ks, threw);
+        if (threw) { vf::out_str("threw_what" + ks, sanitize(what)); aborted = true; vf::out_int("aborted_at", k); sh->intrudes = false; vf::clear_intruder(); break; }
+        emit_lik(ks, ok, lik, sh->log);
+        sh->intrudes = false; vf::clear_intruder();
     }
+    if (intr && to == c.mi("steps")) vf::out_int("intruder_calls", twin_calls);
+}
+
+// how the subject was obtained
+template <class T> static void assign_from(T& target, T& donor, std::true_type) { target = std::move(donor); }
+template <class T> static void assign_from(T&, T&, std::false_type) { std::fprintf(stderr, "BFL_VERIF_HARNESS class has no move assignment\n"); std::exit(3); }
+
+template <class Corr, class Belief>
+static void drive(const vf::Case& c, std::shared_ptr<Shared> sh, const Cfg& g, Runner<Corr, Belief>& r,
+                  std::function<std::unique_ptr<Corr>(std::shared_ptr<Shared>, const Cfg&, InnerSkip*)> make) {
+    const long steps = c.mi("steps");
+    const std::string life = c.m("life", "fresh");
+    // the layout the constructors see (unscented weights are computed from the input description at construction)
+    set_step(c, *sh, 0);
+    std::unique_ptr<Corr> first = make(sh, g, &r.inner);
+    if (c.mi("intr", 0) == 1) {
+        r.tsh = std::make_shared<Shared>(*sh);
+        r.tsh->intrudes = false;
+        InnerSkip dummy;
+        r.twin = make(r.tsh, g, &dummy);
+    }
+    if (c.mi("skip") == 1) first->skip(true);
+    if (life == "fresh") { r.run(*first, 0, steps); return; }
+    long from = 0;
+    if (life == "mcu" || life == "mau") { r.run(*first, 0, 1); from = 1; }
+    if (r.aborted) return;
+    // KFCorrection / UKFCorrection / SUKFCorrection: the hand-written move constructors do not move the GaussianCorrection
+    // base, so a skip flag set on the source is not carried (C13's subject): the command is given again to the new object.
+    // The particle classes move their base; nothing is re-issued for them.
+    const bool regive = std::is_base_of<GaussianCorrection, Corr>::value;
+    // another object of the same class with its own models (vector neighbour / target of the assignment)
+    // (BootstrapCorrection's move assignment moves only the base class: the target keeps its own models -- reported, not
+    //  C12's subject -- so for that class the other object is built over the subject's sensor)
+    auto osh = std::is_same<Corr, BootstrapCorrection>::value ? sh : std::make_shared<Shared>(*sh);
+    InnerSkip oinner;
+    if (life == "mc" || life == "mcu") {
+        vf::Entry e("move constructor");
+        Corr moved(std::move(*first)); first.reset();
+        if (c.mi("skip") == 1 && regive) moved.skip(true);
+        r.run(moved, from, steps);
+    } else if (life == "vec") {
+        std::vector<Corr> v; v.reserve(1);
+        v.push_back(std::move(*first)); first.reset();
+        { std::unique_ptr<Corr> other = make(osh, g, &oinner); v.push_back(std::move(*other)); }   // growth moves element 0 again
+        if (c.mi("skip") == 1 && regive) v[0].skip(true);
+        r.run(v[0], from, steps);
+    } else if (life == "ma" || life == "mau") {
+        std::unique_ptr<Corr> target = make(osh, g, &oinner);
+        target->skip(c.mi("skip") != 1);          // the target's own flag is the opposite of the donor's
+        assign_from(*target, *first, typename std::is_move_assignable<Corr>::type());
+        first.reset();
+        r.run(*target, from, steps);
+    } else { std::fprintf(stderr, "BFL_VERIF_HARNESS unknown life %s\n", life.c_str()); std::exit(3); }
 }
 
 // what the known finding "GPFCorrection does not notice that the wrapped correction could not use the
 // measurement" must produce and nothing else: states re-drawn around the PREDICTED moments with the
 // correction's own generator (seed 7, first draws), weights from the predicted weights, the likelihood at
 // the new states, the transition probability 0.5 of the stub state model and the proposal density
-static void emit_gpf_mirror(const std::string& ks, const vf::Case& c, const ParticleSet& pred, const ParticleSet& out,
+static void emit_gpf_mirror(const std::string& ks, const ParticleSet& pred, const ParticleSet& out,
                             const MatrixXd& H, const MatrixXd& R, const MatrixXd& y, bool custom) {
     std::mt19937_64 gen(7);
     std::normal_distribution<double> dist(0.0, 1.0);
     const long n = pred.dim, N = pred.components;
+    if (pred.use_quaternion) return;
     MatrixXd states(n, N);
     for (long i = 0; i < N; i++) {
         MatrixXd cov = pred.covariance(i); VectorXd mean = pred.mean(i);
@@ -247,8 +509,8 @@ static void emit_gpf_mirror(const std::string& ks, const vf::Case& c, const Part
     VectorXd lik;
     if (custom) lik = FaultyLik::value(states, y);
     else {
-        auto sh2 = std::make_shared<Shared>(); sh2->y = y;
-        FaultyModel fm(sh2, H, R, false);
+        auto sh2 = std::make_shared<Shared>(); sh2->y = y; sh2->H = H; sh2->R = R;
+        FaultyModel fm(sh2, false);
         GaussianLikelihood gl_obj; LikelihoodModel& gl = gl_obj;
         bool ok; std::tie(ok, lik) = gl.likelihood(fm, states);
     }
@@ -265,32 +527,9 @@ static void emit_gpf_mirror(const std::string& ks, const vf::Case& c, const Part
     vf::out_num("mirror_state_diff" + ks, maxdiff(states, out.state()));
     vf::out_int("mirror_w_bits" + ks, vf::bit_equal(w, out.weight()));
     vf::out_num("mirror_w_diff" + ks, maxdiff(w, out.weight()));
-}
-
-static void run_pf(const vf::Case& c, PFCorrection& corr, Shared& sh, const char* l_correct, const char* l_lik, int gpf_custom = -1) {
-    ParticleSet out = make_ps(c, "", "o");
-    const long steps = c.mi("steps");
-    const bool alias = c.mi("alias") == 1;
-    if (c.mi("skip") == 1) corr.skip(true);
-    for (long k = 0; k < steps; k++) {
-        const std::string ks = std::to_string(k);
-        set_step(c, sh, k);
-        ParticleSet pred = make_ps(c, ks), pred_copy(pred);
-        ParticleSet& o = alias ? pred : out;
-        vf::out_int("step_begin" + ks, 1); std::cout << std::flush;
-        { vf::Entry e(l_correct); corr.correct(pred, o); }
-        emit_ps(ks, pred, pred_copy, o);
-        vf::out_int("ident" + ks, vf::bit_equal(o.mean(), pred_copy.mean()) && vf::bit_equal(o.covariance(), pred_copy.covariance())
-                                       && vf::bit_equal(o.weight(), pred_copy.weight()) && same_shape(o, pred_copy)
-                                       && vf::bit_equal(o.state(), pred_copy.state()));
-        out_log("log" + ks, sh.log);
-        if (gpf_custom >= 0 && k == 0 && !alias) emit_gpf_mirror(ks, c, pred_copy, o, c.mat("H"), c.mat("R"), sh.y, gpf_custom == 1);
-        sh.log.clear();
-        vf::out_int("lik_begin" + ks, 1); std::cout << std::flush;
-        bool ok; VectorXd lik;
-        { vf::Entry e(l_lik); std::tie(ok, lik) = corr.getLikelihood(); }
-        emit_lik(ks, ok, lik, sh.log);
-    }
+    // magnitudes the comparison is relative to: the spread the draws were scaled by, the largest term of a weight
+    double spread = 0; for (long i = 0; i < N; i++) spread = std::max(spread, std::sqrt(std::fabs(pred.covariance(i).diagonal().maxCoeff())));
+    vf::out_num("mirror_spread" + ks, spread + pred.mean().cwiseAbs().maxCoeff());
 }
 
 // ---- SIS: the real filtering thread runs a scripted number of steps over a real BootstrapCorrection
@@ -324,7 +563,7 @@ struct LoggingResampling : public Resampling {
     explicit LoggingResampling(std::shared_ptr<Shared> s) : Resampling(11), sh(s) {}
     void resample(const ParticleSet& cor, ParticleSet& res, Ref<VectorXi> parents) override { sh->log.push_back("resample"); Resampling::resample(cor, res, parents); }
 };
-struct StepRecord { ParticleSet pred_at_log, cor_at_log, cor_end; std::vector<std::string> log; bool logged = false; };
+struct StepRecord { ParticleSet pred_at_log, cor_at_log, cor_end; std::vector<std::string> log; bool logged = false; long step_number = -1; bool threw = false; std::string what; };
 struct ScriptedSIS : public SIS {
     const vf::Case* c = nullptr;
     std::shared_ptr<Shared> sh;
@@ -337,10 +576,17 @@ protected:
     void filtering_step() override {
         vf::Entry e("SIS::filtering_step");
         set_step(*c, *sh, k);
+        const std::string cmd = tok(*c, "scmd", k, "-");
+        if (cmd.find("c1") != std::string::npos) skip("correction", true);
+        if (cmd.find("c0") != std::string::npos) skip("correction", false);
         rec.emplace_back();
-        SIS::filtering_step();
+        rec.back().step_number = step_number();
+        try { SIS::filtering_step(); }
+        catch (const std::exception& ex) { rec.back().threw = true; rec.back().what = ex.what(); k = steps; }
+        catch (...) { rec.back().threw = true; rec.back().what = "not-a-std-exception"; k = steps; }
         rec.back().cor_end = cor_particle_;
         rec.back().log = sh->log;
+        if (cmd.find('r') != std::string::npos) reset();
         k++;
     }
     void log() override { rec.back().pred_at_log = pred_particle_; rec.back().cor_at_log = cor_particle_; rec.back().logged = true; SIS::log(); }
@@ -350,75 +596,123 @@ static bool ps_equal(const ParticleSet& a, const ParticleSet& b) {
         && same_shape(a, b) && vf::bit_equal(a.state(), b.state());
 }
 
+// GaussianLikelihood::likelihood evaluated for every step at the same time, one thread per step, each with its own
+// sensor object: [valid; values] must be what the sequential evaluation gives
+static void run_gl_concurrent(const vf::Case& c) {
+    const long steps = c.mi("steps");
+    std::vector<std::function<MatrixXd()>> jobs;
+    std::vector<std::shared_ptr<Shared>> shs;
+    std::vector<std::shared_ptr<FaultyModel>> fms;
+    for (long k = 0; k < steps; k++) {
+        auto s = std::make_shared<Shared>();
+        set_step(c, *s, k);
+        shs.push_back(s);
+        fms.push_back(std::make_shared<FaultyModel>(s, false));
+    }
+    for (long k = 0; k < steps; k++) {
+        std::shared_ptr<FaultyModel> fm = fms[k];
+        const MatrixXd states = c.mat("states" + std::to_string(k));
+        jobs.push_back([fm, states]() {
+            GaussianLikelihood gl_obj; LikelihoodModel& gl = gl_obj;
+            bool ok = false; VectorXd lik;
+            // (an exception is reported by the sequential run of the same step; here it must not end the process)
+            try { std::tie(ok, lik) = gl.likelihood(*fm, states); } catch (...) { return MatrixXd(MatrixXd::Constant(1, 1, -1.0)); }
+            MatrixXd r(lik.size() + 1, 1); r(0, 0) = ok ? 1.0 : 0.0; r.bottomRows(lik.size()) = lik; return r; });
+    }
+    vf::Entry e("GaussianLikelihood::likelihood(concurrent)");
+    vf::out_int("conc_ok", vf::concurrent_same(jobs, 40) ? 1 : 0);
+}
+
 static void run_case(const vf::Case& c) {
     const std::string& kind = c.kind;
-    const long n = c.mi("n"), m = c.mi("m");
-    const MatrixXd& H = c.mat("H"); const MatrixXd& R = c.mat("R");
+    const long n = c.mi("n");
     auto sh = std::make_shared<Shared>();
-    sh->empty_on_fail = c.mi("emptyR") == 1;
-    const double alpha = 1.0, beta = 2.0, kappa = 0.0;
+    Cfg g; g.n = n; g.sub = c.mi("sub"); g.online = c.mi("online") == 1; g.reduced = c.mi("reduced") == 1; g.kind = kind;
     vf::out_begin(c.id);
     std::cout << std::flush;
     if (kind == "kf") {
-        KFCorrection corr(std::unique_ptr<LinearMeasurementModel>(new FaultyModel(sh, H, R, false)));
-        run_gauss(c, corr, *sh, "KFCorrection::correct", "KFCorrection::getLikelihood");
+        Runner<KFCorrection, GaussianMixture> r(c, sh, "KFCorrection::correct", "KFCorrection::getLikelihood", -1);
+        drive<KFCorrection, GaussianMixture>(c, sh, g, r, [](std::shared_ptr<Shared> s, const Cfg& q, InnerSkip*) { return make_kf(s, q); });
     } else if (kind == "ukf_gen") {
-        UKFCorrection corr(std::unique_ptr<MeasurementModel>(new FaultyModel(sh, H, R, true)), alpha, beta, kappa, c.mi("online") == 1);
-        sh->log.clear();
-        run_gauss(c, corr, *sh, "UKFCorrection(generic)::correct", "UKFCorrection(generic)::getLikelihood");
+        Runner<UKFCorrection, GaussianMixture> r(c, sh, "UKFCorrection(generic)::correct", "UKFCorrection(generic)::getLikelihood", -1);
+        drive<UKFCorrection, GaussianMixture>(c, sh, g, r, [](std::shared_ptr<Shared> s, const Cfg& q, InnerSkip*) { return make_ukf_gen(s, q); });
     } else if (kind == "ukf_add") {
-        UKFCorrection corr(std::unique_ptr<AdditiveMeasurementModel>(new FaultyModel(sh, H, R, false)), alpha, beta, kappa);
-        run_gauss(c, corr, *sh, "UKFCorrection(additive)::correct", "UKFCorrection(additive)::getLikelihood");
+        Runner<UKFCorrection, GaussianMixture> r(c, sh, "UKFCorrection(additive)::correct", "UKFCorrection(additive)::getLikelihood", -1);
+        drive<UKFCorrection, GaussianMixture>(c, sh, g, r, [](std::shared_ptr<Shared> s, const Cfg& q, InnerSkip*) { return make_ukf_add(s, q); });
     } else if (kind == "sukf") {
-        const bool reduced = c.mi("reduced") == 1;
-        SUKFCorrection corr(std::unique_ptr<AdditiveMeasurementModel>(new FaultyModel(sh, H, R, false, reduced ? c.mi("sub") : 0)), alpha, beta, kappa, c.mi("sub"), reduced);
-        run_gauss(c, corr, *sh, "SUKFCorrection::correct", "SUKFCorrection::getLikelihood");
+        Runner<SUKFCorrection, GaussianMixture> r(c, sh, "SUKFCorrection::correct", "SUKFCorrection::getLikelihood", -1);
+        drive<SUKFCorrection, GaussianMixture>(c, sh, g, r, [](std::shared_ptr<Shared> s, const Cfg& q, InnerSkip*) { return make_sukf(s, q); });
     } else if (kind == "gl") {
-        FaultyModel fm(sh, H, R, false);
+        FaultyModel fm(sh, false);
         GaussianLikelihood gl_obj;
         LikelihoodModel& gl = gl_obj;   // likelihood() is protected in GaussianLikelihood, public in the interface
         const long steps = c.mi("steps");
+        // callback re-entrancy: another GaussianLikelihood object evaluated over another sensor inside every callback
+        auto tsh = std::make_shared<Shared>();
+        FaultyModel tfm(tsh, false);
+        GaussianLikelihood tgl_obj; LikelihoodModel& tgl = tgl_obj;
         for (long k = 0; k < steps; k++) {
             const std::string ks = std::to_string(k);
             set_step(c, *sh, k);
             const MatrixXd& states = c.mat("states" + ks);
+            MatrixXd tstates = MatrixXd::Constant(states.rows(), states.cols(), 0.4);
+            if (c.mi("intr", 0) == 1) {
+                *tsh = *sh; tsh->intrudes = false; tsh->bits = tok(c, "tpat", k, "000000"); tsh->bits2 = tsh->bits; tsh->pay = "eeeRz";
+                tsh->y = MatrixXd::Constant(sh->y.rows(), sh->y.cols(), 0.3);
+                LikelihoodModel* tg = &tgl; FaultyModel* tf = &tfm; MatrixXd* ts = &tstates;
+                vf::set_intruder([tg, tf, ts]() { tg->likelihood(*tf, *ts); });
+                sh->intrudes = true;
+            }
             vf::out_int("step_begin" + ks, 1);
             vf::out_int("lik_begin" + ks, 1); std::cout << std::flush;
-            bool ok; VectorXd lik;
-            { vf::Entry e("GaussianLikelihood::likelihood"); std::tie(ok, lik) = gl.likelihood(fm, states); }
+            bool ok = false; VectorXd lik; bool threw = false; std::string what;
+            try { vf::Entry e("GaussianLikelihood::likelihood"); std::tie(ok, lik) = gl.likelihood(fm, states); }
+            catch (const std::exception& e) { threw = true; what = e.what(); }
+            catch (...) { threw = true; what = "not-a-std-exception"; }
+            sh->intrudes = false; vf::clear_intruder();
+            vf::out_int("threw_correct" + ks, threw);
+            if (threw) vf::out_str("threw_what" + ks, sanitize(what));
             out_log("log" + ks, sh->log);
+            if (threw) { vf::out_int("aborted_at", k); break; }
             emit_lik(ks, ok, lik, {});
         }
+        if (c.mi("conc", 0) == 1) run_gl_concurrent(c);
     } else if (kind == "boot_gl" || kind == "boot_custom") {
-        std::unique_ptr<LikelihoodModel> lm;
-        if (kind == "boot_gl") lm.reset(new GaussianLikelihood()); else lm.reset(new FaultyLik(sh));
-        BootstrapCorrection corr(std::unique_ptr<MeasurementModel>(new FaultyModel(sh, H, R, false)), std::move(lm));
-        run_pf(c, corr, *sh, "BootstrapCorrection::correct", "BootstrapCorrection::getLikelihood");
+        Runner<BootstrapCorrection, ParticleSet> r(c, sh, "BootstrapCorrection::correct", "BootstrapCorrection::getLikelihood", -1);
+        drive<BootstrapCorrection, ParticleSet>(c, sh, g, r, [](std::shared_ptr<Shared> s, const Cfg& q, InnerSkip*) { return make_boot(s, q); });
     } else if (kind.rfind("gpf_", 0) == 0) {
         const bool custom = kind.find("_custom") != std::string::npos;
-        std::unique_ptr<LikelihoodModel> lm;
-        if (custom) lm.reset(new FaultyLik(sh)); else lm.reset(new GaussianLikelihood());
-        std::unique_ptr<GaussianCorrection> gc;
-        if (kind.find("_kf_") != std::string::npos)
-            gc.reset(new KFCorrection(std::unique_ptr<LinearMeasurementModel>(new FaultyModel(sh, H, R, false))));
-        else if (kind.find("_ukfgen_") != std::string::npos)
-            gc.reset(new UKFCorrection(std::unique_ptr<MeasurementModel>(new FaultyModel(sh, H, R, true)), alpha, beta, kappa));
-        else if (kind.find("_ukfadd_") != std::string::npos)
-            gc.reset(new UKFCorrection(std::unique_ptr<AdditiveMeasurementModel>(new FaultyModel(sh, H, R, false)), alpha, beta, kappa));
-        else
-            gc.reset(new SUKFCorrection(std::unique_ptr<AdditiveMeasurementModel>(new FaultyModel(sh, H, R, false)), alpha, beta, kappa, c.mi("sub"), false));
-        if (c.mi("iskip") == 1) gc->skip(true);
-        std::unique_ptr<LikelihoodModel> plm(new PhaseLik(sh, std::move(lm)));
-        GPFCorrection corr(std::move(plm), std::move(gc), std::unique_ptr<StateModel>(new StubState(n)), 7);
-        sh->log.clear();
-        run_pf(c, corr, *sh, "GPFCorrection::correct", "GPFCorrection::getLikelihood", custom ? 1 : 0);
+        const bool iskip = c.mi("iskip") == 1;
+        Runner<GPFCorrection, ParticleSet> r(c, sh, "GPFCorrection::correct", "GPFCorrection::getLikelihood", custom ? 1 : 0);
+        // the subject's generator is seeded with 7 (the mirror of the known finding replays its first draws); every other object with 11
+        bool first_made = false;
+        drive<GPFCorrection, ParticleSet>(c, sh, g, r, [&first_made, iskip](std::shared_ptr<Shared> s, const Cfg& q, InnerSkip* in) {
+            // the wrapped correction is reachable only before it is handed over
+            const std::string& kd = q.kind;
+            const bool cust = kd.find("_custom") != std::string::npos;
+            std::unique_ptr<LikelihoodModel> lm;
+            if (cust) lm.reset(new FaultyLik(s)); else lm.reset(new GaussianLikelihood());
+            std::unique_ptr<GaussianCorrection> gc;
+            if (kd.find("_kf_") != std::string::npos) gc = make_kf(s, q);
+            else if (kd.find("_ukfgen_") != std::string::npos) { Cfg h = q; h.online = false; gc = make_ukf_gen(s, h); }
+            else if (kd.find("_ukfadd_") != std::string::npos) gc = make_ukf_add(s, q);
+            else { Cfg h = q; h.reduced = false; gc = make_sukf(s, h); }
+            if (iskip) gc->skip(true);
+            if (in) in->gc = gc.get();
+            std::unique_ptr<LikelihoodModel> plm(new PhaseLik(s, std::move(lm)));
+            const unsigned seed = first_made ? 11 : 7; first_made = true;
+            std::unique_ptr<GPFCorrection> p(new GPFCorrection(std::move(plm), std::move(gc), std::unique_ptr<StateModel>(new StubState(q.n)), seed));
+            s->log.clear();
+            return p; });
     } else if (kind == "sis") {
-        ParticleSet pred0 = make_ps(c, "0");
-        ParticleSet cor0 = make_ps(c, "", "o");
+        const Layout lay = step_layout(c, 0);
+        ParticleSet pred0 = make_ps(c, "0", "", lay);
+        ParticleSet cor0 = make_ps(c, "", "o", parse_layout(c.m("olay", "-"), n));
         const long N = pred0.components;
+        set_step(c, *sh, 0);
         ScriptedSIS sis(N, n, std::unique_ptr<ParticleSetInitialization>(new CaseInit(pred0)),
                         std::unique_ptr<PFPrediction>(new StubPrediction(n, sh)),
-                        std::unique_ptr<PFCorrection>(new LoggingBootstrap(sh, std::unique_ptr<MeasurementModel>(new FaultyModel(sh, H, R, false)),
+                        std::unique_ptr<PFCorrection>(new LoggingBootstrap(sh, std::unique_ptr<MeasurementModel>(new FaultyModel(sh, false)),
                                                                            std::unique_ptr<LikelihoodModel>(new GaussianLikelihood()))),
                         std::unique_ptr<Resampling>(new LoggingResampling(sh)));
         sis.c = &c; sis.sh = sh; sis.steps = c.mi("steps");
@@ -431,6 +725,9 @@ static void run_case(const vf::Case& c) {
             const StepRecord& r = sis.rec[k];
             out_log("events" + ks, r.log);
             vf::out_int("logged" + ks, r.logged);
+            vf::out_int("step_number" + ks, r.step_number);
+            vf::out_int("threw_correct" + ks, r.threw);
+            if (r.threw) vf::out_str("threw_what" + ks, sanitize(r.what));
             vf::out_int("ident_atlog" + ks, r.logged && ps_equal(r.cor_at_log, r.pred_at_log));
             vf::out_int("ident_atlog_w" + ks, r.logged && vf::bit_equal(r.cor_at_log.weight(), r.pred_at_log.weight()));
             vf::out_int("ident_atlog_state" + ks, r.logged && vf::bit_equal(r.cor_at_log.state(), r.pred_at_log.state()));
@@ -445,11 +742,6 @@ static void run_case(const vf::Case& c) {
         std::exit(3);
     }
     vf::out_end();
-}
-
-static std::string sanitize(std::string s) {
-    for (auto& ch : s) if (ch == ' ' || ch == '\t' || ch == '\n') ch = '_';
-    return s.empty() ? "-" : s;
 }
 
 // runs the case in a child; returns after printing a complete record
